@@ -761,3 +761,47 @@ fn classify(msg: &str) -> String {
     };
     format!("{}/{}", what, phase)
 }
+
+/// `./check --replay <C19 file>`: run the recorded instance twice in child processes
+pub fn replay(v: &serde_json::Value, path: &str) -> i32 {
+    let inst: Vec<String> = v["big_instance"].as_array().map(|a| a.iter().map(|x| x.as_str().unwrap_or("").to_string()).collect()).unwrap_or_default();
+    let kind = v["kind"].as_str().unwrap_or("").to_string();
+    if inst.len() != 5 {
+        eprintln!("bad C19 replay file {}", path);
+        return 2;
+    }
+    let exe = std::env::current_exe().unwrap();
+    let timeout = Duration::from_secs(std::env::var("VERIF_C19_TIMEOUT_S").ok().and_then(|x| x.parse().ok()).unwrap_or(100));
+    println!("replaying C19 instance {} (recorded: {})", inst.join(" "), kind);
+    let mut verdicts = Vec::new();
+    for _ in 0..2 {
+        match run_child(&exe, &inst, timeout) {
+            Ok(j) => {
+                let viol: Vec<String> = j["violations"].as_array().map(|a| a.iter().map(|x| x.as_str().unwrap_or("").to_string()).collect()).unwrap_or_default();
+                let timed_out = j.get("timeout").is_some();
+                for m in viol.iter().take(3) {
+                    println!("  -> {}", m.chars().take(300).collect::<String>());
+                }
+                if timed_out {
+                    println!("  -> not finished within {}s", timeout.as_secs());
+                }
+                verdicts.push(!viol.is_empty() || (timed_out && kind.starts_with("blowup/")));
+            }
+            Err(e) => {
+                eprintln!("MACHINERY ERROR: {}", e);
+                return 2;
+            }
+        }
+    }
+    if verdicts[0] != verdicts[1] {
+        eprintln!("MACHINERY ERROR: two replays disagree");
+        return 2;
+    }
+    if verdicts[0] {
+        println!("VIOLATION property=C19 replay={}", path);
+        1
+    } else {
+        println!("not reproduced: the property holds on this replay");
+        0
+    }
+}
